@@ -24,7 +24,8 @@ for p in sorted(glob.glob('/verif/seeded/*/meta.json')):
         caught = sorted(set(caught) | set(h['caught_by']))
     rows.append('| %s | %s | %s | %s | %s | %s | %s |' % (
         m['name'], m['property'], what[:150].replace('|', '/'), m.get('suite', '').split(',')[0], hold,
-        'yes' if own else 'NO', ', '.join(caught) or 'none'))
+        'no longer a violation (see meta.json)' if m.get('obsolete') else 'yes' if own else 'NO',
+        ', '.join(caught) or 'none'))
 print('| seeded change | breaks | what it is | repo suite | holdout (before strengthening) | caught by its own check now '
       '| quick checks seen reporting it |')
 print('|---|---|---|---|---|---|---|')
